@@ -66,7 +66,11 @@ pub fn matches_dockerignore_filter(
 ) -> bool {
     let mut matched = false;
 
+    // a backslash separates directories on Windows only; elsewhere it is an ordinary character of a name
+    #[cfg(windows)]
     let file_name = file_name.to_string().replace("\\", "/").replace("//", "/");
+    #[cfg(not(windows))]
+    let file_name = file_name.to_string().replace("//", "/");
 
     // the last matching line decides; a line starting with ! re-includes
     for dockerignore_filter in dockerignore_filters {
